@@ -161,7 +161,8 @@ class World(object):
         self.par_names = ['PAR%d' % (k + 1) for k in range(spec['n_par'])]
         self.pars = {}
         for k, p in enumerate(self.par_names):
-            base = 1.02 ** g.permutation(nm) * (k + 1.5)
+            # (large grids: spread over one decade instead, so that the values stay finite in single precision)
+            base = (1.02 ** g.permutation(nm) if nm <= 64 else 10.0 ** (g.permutation(nm) / float(nm))) * (k + 1.5)
             self.pars[p] = base * 10.0 ** int(g.integers(-4, 5)) * (-1 if g.random() < 0.2 else 1)
         nan_at = int(g.integers(0, nm)) if (spec.get('nan_param') and nm > 1) else None
         # storage type of each parameter column: double, single precision or integer (all 'numeric'); the reference
